@@ -105,7 +105,7 @@ ContainsRing(shell, hole) == \A i \in 1..Len(hole) : PointInRing(shell, hole[i])
 
 (* ---------------- what is asked of an assembly ---------------- *)
 (* sample locations: the centres of the unit cells of the lattice (never on a loop) *)
-CONSTANTS Size, MaxOuters, MaxInners
+CONSTANTS Size, MaxOuters, MaxInners, CatSel        \* CatSel: which catalogue entries the enumeration draws from
 (* two locations per unit cell, at (x + 1/4, y + 1/2) and (x + 3/4, y + 1/2): never on an axis-parallel or 45-degree edge of
    the catalogue, and one on either side of a diagonal that splits the cell (coordinates times four) *)
 Samples == {<<4 * x + 1, 4 * y + 2>> : x, y \in 0..(Size - 1)} \cup {<<4 * x + 3, 4 * y + 2>> : x, y \in 0..(Size - 1)}
@@ -139,8 +139,8 @@ Catalogue == << Box(0, 0, 4, 4),        \* 1  the whole window                  
                 Box(0, 0, 3, 3),        \* 7  between 1 and 2                           9
                 <<<<0, 0>>, <<4, 0>>, <<4, 4>>>> >>   \* 8  triangle under an ascending hypotenuse                                     8
 Rot(r, k) == [i \in 1..Len(r) |-> r[((i + k - 1) % Len(r)) + 1]]
-Outers == {Catalogue[c] : c \in 1..Len(Catalogue)}
-Inners == {Reverse(Rot(Catalogue[c], k)) : c \in 1..Len(Catalogue), k \in {0, 2}}      \* clockwise, two starting vertices
+Outers == {Catalogue[c] : c \in CatSel}
+Inners == {Reverse(Rot(Catalogue[c], k)) : c \in CatSel, k \in {0, 2}}      \* clockwise, two starting vertices
 SeqsOf(S, n) == UNION {[1..k -> S] : k \in 0..n}
 
 VARIABLES os, is
